@@ -78,19 +78,14 @@ Proof.
   - repeat split; auto.
 Qed.
 
-(* in the shape of the original statement *)
-Corollary idempotent_partial_jeqb : forall d o l r,
+(* in the shape of the original statement, with Leibniz equality of the results *)
+Corollary idempotent_partial_ex : forall d o l r,
   null_ok d o l = true ->
   Hb d o l = true -> wf_json d = true -> wf_json o = true -> wf_json l = true ->
-  merge d o l = Ok r -> exists r', merge d r d = Ok r' /\ r' = r /\ jeqb r r' = true.
+  merge d o l = Ok r -> exists r', merge d r d = Ok r' /\ r' = r.
 Proof.
   intros d o l r HX Hh Hw Hwo Hwl Hm. exists r.
-  split; [eapply idempotent_partial; eauto|]. split; [reflexivity|].
-  (* the result is well formed whenever jeqb is to be reflexive on it; avoid
-     needing that: compare through Leibniz equality of the second result *)
-  destruct (jeqb r r) eqn:E; [reflexivity|].
-  exfalso. revert E.
-  (* jeqb r r = true needs wf_json r; proved below as merge_wf *)
-  Abort.
+  split; [eapply idempotent_partial; eauto|reflexivity].
+Qed.
 
 Print Assumptions idempotent_partial.
